@@ -1575,8 +1575,18 @@ def _bounds(tier):
             inits={"pure": ("n11", "sup"), "fock": ("mix",), "passive": ("n11", "n2"), "fermi": ("f11", "fsup")},
             shots_inits={"pure": ("n11",), "fock": ("mix",), "passive": ("n11",), "fermi": ("fsup",)},
             budget={2: 120, 3: 24},
-            itree=dict(depth=2, max_meas=1, max_gates=1, pre_gate=False, ds=(2, 3), inits={"pure": ("n11",), "fock": ("mix",), "passive": ("n11", "n2")}),
-            ishots=dict(depth=2, max_meas=1, max_gates=1, pre_gate=False, ds=(2, 3), N={1: (9, 2), 2: (1, 2), 3: (1, 0)}, inits={"pure": ("n11",), "fock": ("mix",), "passive": ("n11",)}),
+            # programs around an ImperfectParticleNumberMeasurement, per number of modes; N: {shots: (largest width of an
+            # imperfect measurement, largest number of ops behind the first measurement)}
+            itree={
+                2: dict(depth=2, max_meas=1, max_gates=1, pre_gate=False, letters=GATE_LETTERS, inits={"pure": ("n1",), "fock": ("n1",), "passive": ("n11", "n2")}),
+                3: dict(depth=2, max_meas=1, max_gates=1, pre_gate=False, letters=GATE_LETTERS, inits={"pure": ("n1",), "fock": ("n1",), "passive": ("n11",)}),
+            },
+            ishots={
+                2: dict(depth=2, max_meas=1, max_gates=1, pre_gate=False, letters=GATE_LETTERS, N={1: (9, 2), 2: (1, 2), 3: (1, 0)},
+                        inits={"pure": ("n1",), "fock": ("n1",), "passive": ("n11",)}),
+                3: dict(depth=2, max_meas=1, max_gates=1, pre_gate=False, letters=("Gu", "Gpc"), N={1: (9, 2), 2: (1, 1)},
+                        N_cheap={1: (9, 2), 2: (2, 2), 3: (1, 1)}, inits={"pure": ("n1",), "fock": ("n1",), "passive": ("n11",)}),
+            },
         )
     return dict(
         ds=(2, 3, 4),
@@ -1589,8 +1599,16 @@ def _bounds(tier):
         inits_d4={"pure": ("n11", "sup"), "fock": ("mix",), "passive": ("n11", "n2"), "fermi": ("f11", "fsup")},
         shots_inits={"pure": ("n11", "sup"), "fock": ("mix",), "passive": ("n11", "n2"), "fermi": ("fsup", "fnum")},
         budget={2: 400, 3: 60},
-        itree=dict(depth=3, max_meas=2, max_gates=2, pre_gate=True, ds=(2, 3), inits={"pure": ("n11", "sup"), "fock": ("mix",), "passive": ("n11", "n2", "n21")}),
-        ishots=dict(depth=2, max_meas=1, max_gates=1, pre_gate=True, ds=(2, 3), N={1: (9, 2), 2: (1, 2), 3: (1, 1), 4: (1, 0)}, inits={"pure": ("n11", "sup"), "fock": ("mix",), "passive": ("n11", "n2")}),
+        itree={
+            2: dict(depth=3, max_meas=2, max_gates=2, pre_gate=True, letters=GATE_LETTERS, inits={"pure": ("n1",), "fock": ("n1",), "passive": ("n11", "n2", "n21")}),
+            3: dict(depth=3, max_meas=2, max_gates=2, pre_gate=True, letters=GATE_LETTERS, inits={"pure": ("n1",), "fock": ("n1",), "passive": ("n11", "n2")}),
+        },
+        ishots={
+            2: dict(depth=2, max_meas=1, max_gates=1, pre_gate=True, letters=GATE_LETTERS, N={1: (9, 2), 2: (2, 2), 3: (1, 1), 4: (1, 0)},
+                    inits={"pure": ("n1", "n11"), "fock": ("n1", "mix"), "passive": ("n11", "n2")}),
+            3: dict(depth=2, max_meas=1, max_gates=1, pre_gate=False, letters=GATE_LETTERS, N={1: (9, 2), 2: (1, 2), 3: (1, 0)},
+                    inits={"pure": ("n1",), "fock": ("n1",), "passive": ("n11",)}),
+        },
     )
 
 
@@ -1630,11 +1648,11 @@ def _items(tier):
     items.append(("gauss", "gauss", 0, "", 0, 1))
     for fam in ("itree", "ishots"):
         for simkind in ("passive", "pure", "fock"):
-            for d in b[fam]["ds"]:
-                for init in b[fam]["inits"][simkind]:
+            for d in sorted(b[fam]):
+                for init in b[fam][d]["inits"][simkind]:
                     n = 1
                     if simkind == "passive" and d == 3:
-                        n = {"quick": 2, "thorough": 8}[tier] * (2 if fam == "ishots" else 1)
+                        n = {"quick": 2, "thorough": 16}[tier]
                     for ch in range(n):
                         items.append((fam, simkind, d, init, ch, n))
     for simkind in ("pure", "passive", "fermi", "fock"):
@@ -1714,15 +1732,18 @@ def work(ctx, item):
     allow_mid = pq.ParticleNumberMeasurement in mid
     allow_ps = pq.PostSelectPhotons in sim._instruction_map
     if fam in ("itree", "ishots"):
-        bb = b[fam]
+        bb = b[fam][d]
         mid = pq.ImperfectParticleNumberMeasurement in mid
         if pq.ImperfectParticleNumberMeasurement not in sim._instruction_map:
             ctx.count("unsupported_not_implemented")
             return
-        progs = enum_imperfect_programs(simkind, d, cutoff, bb["depth"], bb["max_meas"], bb["max_gates"], GATE_LETTERS, allow_ps, seed, mid, allow_mid, bb["pre_gate"])
+        progs = enum_imperfect_programs(simkind, d, cutoff, bb["depth"], bb["max_meas"], bb["max_gates"], bb["letters"], allow_ps, seed, mid, allow_mid, bb["pre_gate"])
         if not mid:
             # one probe of the shape the simulator refuses (an unsupported cell)
             progs.append([{"k": "ipnm", "modes": [0], "ncols": cutoff}, {"k": "pnm", "modes": [1]}])
+        if fam == "itree" and pq.ImperfectParticleNumberMeasurement not in sim._measurement_classes_allowed_with_shots_none:
+            # the simulator's own declaration: no exact tree behind an imperfect detector; one probe (an unsupported cell)
+            progs = progs[:1]
         for i, ops in enumerate(progs):
             if i % nchunk != ch:
                 continue
@@ -1733,7 +1754,7 @@ def work(ctx, item):
                 if i < 2:
                     ctx.sample(case)
                 continue
-            for N in ishots_N(ops, bb["N"]):
+            for N in ishots_N(ops, bb["N"] if simkind == "passive" or cutoff > 2 else bb.get("N_cheap", bb["N"])):
                 case = dict(base, fam="shots", ops=ops, shots=N)
                 if simkind == "passive":
                     case["sampler"] = "owned"
